@@ -87,8 +87,9 @@ def m_heap_msa(dev):
 
 def m_heap_range_empty(dev):
     cf, P = cfg_of(dev["cfg"]), dev["P"]
-    return cf["ct"] == "HEAP" and diffs_under(dev, "obs.cols_set") and any(
-        a["op"] in dc.RANGE_OPS and target_emptied(a, o, P) for a, o in steps_of(dev))
+    # symptom: the content (a sum over all stored entries) is right, the emptiness test (pops the heap) is not
+    return cf["ct"] == "HEAP" and all(d["path"].startswith("obs.cols_set") and d["path"].endswith(".zc") for d in dev["diffs"]) \
+        and any(a["op"] in dc.RANGE_OPS and target_emptied(a, o, P) for a, o in steps_of(dev))
 
 
 def m_vector_absent(dev):
@@ -402,7 +403,13 @@ def slim(d, part, cname):
 
 # trace rejections: the event that was rejected plus the events of its execution so far
 def t_heap_range_empty(rj):
-    return rj["cfg"].startswith("HEAP") and any(e["op"] in dc.RANGE_OPS for e in rj["execution"])
+    # the rejected event is inconsistent in itself: a column whose entries all read zero is not reported empty
+    e = rj["event"]
+    if not (rj["cfg"].startswith("HEAP") and "zc" in e and "ze" in e):
+        return False
+    ze = {c: z for c, z in e["ze"]}
+    odd = [c for c, z in e["zc"] if (not z) and all(ze.get(c, [False]))]
+    return bool(odd) and any(x["op"] in dc.RANGE_OPS for x in rj["execution"])
 
 
 MATCHERS_TRACE = {
